@@ -158,6 +158,14 @@ func runC06(c *Ctx) {
 		run("blind:leading-zero", req, append([]byte{0, 0}, cl.blind...), cl.pubEnc, true)
 		run("clientKey:other", req, cl.blind, other.pubEnc, false)
 		run("clientKey:is-request-key", req, cl.blind, req.RequestKey, false)
+		// the negated key: a client whose secret is N-d has public key -P; its honest request under the same
+		// blind carries the request key -(b·P) with a valid signature — presented with client key P it is not authentic
+		negSecret := new(big.Int).Sub(elliptic.P384().Params().N, cl.sk.D).FillBytes(make([]byte, 48))
+		negSk, _ := ecdsa.CreateKey(elliptic.P384(), negSecret)
+		negRk, _ := ecdsa.BlindPublicKeyWithContext(elliptic.P384(), &negSk.PublicKey, cl.blindKey, t3ctx("ClientBlind"))
+		negReq := signedRequest(negSk, cl.blindKey, elliptic.MarshalCompressed(elliptic.P384(), negRk.X, negRk.Y), req.NameKeyID, req.EncryptedTokenRequest)
+		run("requestKey:negated", negReq, cl.blind, cl.pubEnc, false)
+		run("requestKey:negated-own-key", negReq, cl.blind, elliptic.MarshalCompressed(elliptic.P384(), negSk.X, negSk.Y), true)
 		// a consistent request of the other client presented with this client's key
 		run("request:other-client", other.request, other.blind, cl.pubEnc, false)
 		run("request:other-client-own-key", other.request, other.blind, other.pubEnc, true)
